@@ -13,6 +13,7 @@
 """
 import json
 import os
+import re
 
 import vlib
 
@@ -28,10 +29,10 @@ CONSTANTS
   Addrs = {1, 2, 3}
   Slots <- %(slots)s
   Configs <- MCConfigs
-  Keys = {1, 2}
-  Stickies = {"s1"}
+  Keys = %(keys)s
+  Stickies = %(stickies)s
   Policies %(policies)s
-  Metrics = {"conns", "reqs"}
+  Metrics = %(metrics)s
   MaxTries = 2
   Thresholds = {2}
   HCap = 2
@@ -87,6 +88,12 @@ CHECK_DEADLOCK FALSE
 """
 
 
+def sim_states(r):
+    """TLC's simulation mode reports its state count in its own format."""
+    m = re.search(r"The number of states generated: (\d+)", r["out"])
+    return int(m.group(1)) if m else 0
+
+
 def tla_set(xs):
     return "{" + ", ".join('"%s"' % x for x in xs) + "}"
 
@@ -98,9 +105,11 @@ def write(wd, name, text):
     return path
 
 
-def mc_cfg(wd, name, steps, dev, slots="MCSlots3", policies=None, view=True):
+def mc_cfg(wd, name, steps, dev, slots="MCSlots3", policies=None, view=True, small=False):
     return write(wd, name, MC_CFG % {
         "slots": slots, "steps": steps, "dev": tla_set(dev), "invs": INVS,
+        "keys": "{1}" if small else "{1, 2}", "stickies": "{}" if small else '{"s1"}',
+        "metrics": '{"conns"}' if small else '{"conns", "reqs"}',
         "policies": ("= " + tla_set(policies)) if policies else "<- AllPolicies",
         "view": "VIEW view" if view else ""})
 
@@ -180,13 +189,14 @@ def run(tier, replay=None):
         rep.violation("spec:" + r["violated"], "the specification itself violates %s" % r["violated"], r["out"])
     rs = vlib.tlc("MC_Backends", mc_cfg(wd, "mc_sim.cfg", 40, [], slots="MCSlots4", view=False), PID, workers=workers,
                   timeout=600, simulate="num=%d" % (400 if thorough else 40), depth=42)
-    rep.cov["transitions"] += rs["generated"]
+    rep.cov["transitions"] += sim_states(rs)
+    rep.extra["tlc_simulated_states"] = sim_states(rs)
     if rs["violated"]:
         rep.violation("spec:" + rs["violated"], "the specification itself violates %s (simulation)" % rs["violated"], rs["out"])
 
     # 2. each open deviation must still break the property in the model
     for d in devs:
-        rd = vlib.tlc("MC_Backends", mc_cfg(wd, "mc_dev.cfg", 6, [d], policies=["maglev"]), PID,
+        rd = vlib.tlc("MC_Backends", mc_cfg(wd, "mc_dev.cfg", 6, [d], policies=["maglev"], small=True), PID,
                       workers=workers, timeout=600)
         rep.add_tlc(rd)
         if not rd["violated"]:
@@ -201,7 +211,7 @@ def run(tier, replay=None):
         g = vlib.tlc("Gen_Backends", write(wd, "gen.cfg", GEN_CFG % {"steps": 16 if thorough else 12, "dev": tla_set(devs)}),
                      PID, workers=gen_workers, timeout=1500, simulate="num=%d" % (n_hist // gen_workers), depth=20,
                      want_replay=True, replay_sink=lambda o: f.write(json.dumps(o) + "\n"))
-    rep.cov["transitions"] += g["generated"]
+    rep.cov["transitions"] += sim_states(g)
     if g["violated"] or g["n_replays"] == 0:
         raise vlib.ToolError("generator run failed: violated=%s histories=%d" % (g["violated"], g["n_replays"]))
     histories = 0
@@ -229,7 +239,10 @@ def run(tier, replay=None):
             rep.known_finding_seen("maglev-rebuild")
         for v in out:
             if v.get("kind") == "violation":
-                rep.violation(v["class"], v["detail"]["what"][:250], v)
+                # the replay file is the generated behaviour itself (./check C12 --replay re-executes it)
+                n = v["detail"].get("behaviour", 0)
+                rep.violation(v["class"], v["detail"]["what"][:250], _line(beh, n) or v,
+                              name="behaviour_%d_v%d.ndjson" % (n, variant))
     missing = [o for o in ALL_OPS if by_op.get(o, 0) == 0]
     if missing:
         raise vlib.ToolError("vacuous generator run: operations never generated: %s" % missing)
@@ -245,7 +258,10 @@ def run(tier, replay=None):
     summ = summ[0]
     for v in out:
         if v.get("kind") == "violation":
-            rep.violation(v["class"], "run %s: %s" % (v["detail"]["run"], v["detail"]["panic"][:200]), v)
+            evs = v.get("events")
+            rep.violation(v["class"], "run %s cluster %s: %s" % (v["detail"]["run"], v["detail"].get("cluster"), v["detail"]["panic"][:200]),
+                          "".join(json.dumps(e) + "\n" for e in evs) if evs else v,
+                          name="panic_run_%s.ndjson" % v["detail"]["run"])
     missing = [o for o in ALL_OPS + ["Connect", "Keyed"] if summ["by_action"].get(o, 0) == 0]
     if missing:
         raise vlib.ToolError("vacuous driver run: actions never performed: %s" % missing)
@@ -301,6 +317,15 @@ def run(tier, replay=None):
         "no end-to-end leg (real worker + mock backends) in this check; Backend::set_closing has no caller in sozu itself, the harness calls it as a public API",
     ]
     rep.finish()
+
+
+def _line(path, n):
+    """Line n (1-based) of a file, or None."""
+    with open(path) as f:
+        for i, l in enumerate(f, 1):
+            if i == n:
+                return l
+    return None
 
 
 def _corrupt_counter(evs):
